@@ -415,6 +415,7 @@ func checkC07(c *Ctx) int {
 		}
 		descr = append(descr, fmt.Sprintf("MaxNodes=%d MaxRepos=%d -> %d states, %d accepted edges; refused requests on states with < %d nodes: %d", gc.nodes, gc.repos, len(g.states), len(g.edges), gc.rejNodes, nrej))
 		replayDagGraph(c, run, g, &nAccepted, &nRejected, &nStates)
+		replayDagRPC(c, run, g, &nAccepted, &nRejected) // the same requests as commands of the RPC path (c07_rpc.go)
 	}
 	run.Set("replay_graph", descr)
 	nTr, nEv := runKVTraces(c, run, c.pick(60, 400), c.pick(50, 80), c.pick(12, 16), false, "")
